@@ -47,6 +47,14 @@ class Tags:
                              edge_ok=lambda a, b, l: l != "loop")
         return p is None
 
+    def _in_cycle(self, node: int) -> bool:
+        if not hasattr(self, "_cyc"):
+            self._cyc = {}
+        if node not in self._cyc:
+            self._cyc[node] = self.g.find_path([b for b, _ in self.g.succ[node]],
+                                               lambda x: x == node) is not None
+        return self._cyc[node]
+
     @staticmethod
     def _shift(f: Optional[Poly]) -> Optional[Poly]:
         return None if f is None else f.subs("STEP", STEP - ONE)
@@ -132,6 +140,11 @@ class Tags:
                                                             if dd.sel != (("param",),)] \
                                 and x.id not in self.field_env:
                             continue        # an input value (initial field): no constraint
+                        if isinstance(x, ast.Name):
+                            xd = [dd for dd in self._name_defs(x.id, d.node)
+                                  if dd.sel != (("param",),)]
+                            if xd and not any(self._in_cycle(dd.node) for dd in xd):
+                                continue    # defined once before the loop: an input value
                         ti = self.field_tag(x, d.node)
                         if ti is not None:
                             inner.add(ti)
